@@ -3,6 +3,7 @@
 cd "$(dirname "$0")"
 for i in 01 02 03 04 05 06 07 08 09 10 11 12 13 14 15 16 17 18 19 20; do
   s=$(date +%s)
-  out=$(./check C$i --tier ${1:-quick} 2>&1 | tail -2 | tr '\n' ' ')
-  echo "C$i rc=$? $(( $(date +%s) - s ))s $out"
+  ./check C$i --tier ${1:-quick} > .build/run_all_C$i.out 2>&1
+  rc=$?
+  echo "C$i rc=$rc $(( $(date +%s) - s ))s $(tail -2 .build/run_all_C$i.out | tr '\n' ' ')"
 done
